@@ -896,6 +896,14 @@ class Message(ABC):
                 # Found a non-sentinel value
                 all_sentinel = False
 
+                if (
+                    isinstance(value, Message)
+                    and not value._betterproto.meta_by_field_name
+                ):
+                    # A message without fields carries nothing but its presence
+                    # (see __setattr__, which a pydantic constructor bypasses).
+                    value.__dict__["_serialized_on_wire"] = True
+
                 if meta.group:
                     # This was set, so make it the selected value of the one-of.
                     previous = group_current[meta.group]
